@@ -27,8 +27,9 @@ type Step struct {
 	Dead    bool    `json:"dead"`    // the specification state before this step already had a connection error
 }
 type Path struct {
-	ID    int    `json:"id"`
-	Steps []Step `json:"steps"`
+	ID      int    `json:"id"`
+	Steps   []Step `json:"steps"`
+	Declare bool   `json:"declare"` // requests with a body declare its length (otherwise every third path does)
 }
 type StepObs struct {
 	Got [][]any `json:"got"`
@@ -386,7 +387,7 @@ func runPath(st *stack.Stack, g *gated, p Path) PathObs {
 					delete(declared, sid)
 					// every third path: a request that will carry a body declares its length - the octets of the DATA frames the path
 					// sends on the stream before it ends (whatever their padding); legal, and nothing in the reactions depends on it
-					if p.ID%3 == 0 && s.Frame[4].(string) == "ok" && !s.Frame[2].(bool) {
+					if (p.Declare || p.ID%3 == 0) && s.Frame[4].(string) == "ok" && !s.Frame[2].(bool) {
 						total, ended := 0, false
 					scan:
 						for _, n := range p.Steps[si+1:] {
@@ -414,6 +415,12 @@ func runPath(st *stack.Stack, g *gated, p Path) PathObs {
 						}
 						if ended && total > 0 {
 							declared[sid] = total
+							if dbg := os.Getenv("VF_DECL_DEBUG"); dbg != "" {
+								if f, err := os.OpenFile(dbg, os.O_APPEND|os.O_CREATE|os.O_WRONLY, 0o644); err == nil {
+									fmt.Fprintf(f, "path %d stream %d declares %d\n", p.ID, sid, total)
+									f.Close()
+								}
+							}
 						}
 					}
 				}
